@@ -206,7 +206,165 @@ def r_policy_vs_actor(spec, data):
     return a.shape != want.shape or not bool(jnp.allclose(a, want, atol=1e-6))
 
 
-RECIPES = {"policy_vs_actor": r_policy_vs_actor, "push_ts_input": r_push_ts_input, "set_delay": r_set_delay, "push_expected_nonblocking": r_push_expected_nonblocking}
+def stub_node(scheduling="FREQUENCY", advance=False, clock="SIMULATED", state="RUNNING", rate=10.0, blocking=()):
+    from rex import asynchronous as A
+    from rex.constants import Async, Clock, Scheduling
+
+    class N:
+        pass
+    w = object.__new__(A._AsyncNodeWrapper)
+    node = N(); node.name = "n"; node.rate = rate; node.advance = advance; node.scheduling = getattr(Scheduling, scheduling); node.log = lambda *a, **k: None
+    w.node = node
+    w._state = getattr(Async, state); w._clock = getattr(Clock, clock); w._eps = 0; w._tick = 0; w._phase = 0.0; w._phase_scheduled = 0.0
+    w._real_time_factor = 0; w._num_buffer = 50; w._dist_state = None; w._discarded = 0; w._max_records = 1000
+    w._record_setting = dict(params=False, rng=False, inputs=False, state=False, output=False); w._record_steps = []
+    for q in ("q_tick", "q_ts_scheduled", "q_ts_end_prev", "q_ts_start", "q_sample"):
+        setattr(w, q, deque())
+    w.inputs, w.outputs = {}, {}
+    for i, b in enumerate(blocking):
+        c = N(); c.connection = N(); c.connection.blocking = b; c.q_ts_max = deque(); c.q_ts_next_step = deque(); c.q_grouped = deque(); c.calls = []
+        c._submit = (lambda cc: (lambda fn, *a, **k: cc.calls.append(getattr(fn, "__name__", str(fn)))))(c)
+        c.push_expected_nonblocking = lambda: None
+        c.push_expected_blocking = lambda: None
+        w.inputs[f"in{i}"] = c
+    w.calls = []
+    w.log = lambda *a, **k: None
+    w.throttle = lambda ts: None
+    w._submit = lambda fn, *a, **k: w.calls.append(getattr(fn, "__name__", str(fn)))
+    return w
+
+
+def r_push_phase_shift(spec, data):
+    lab = spec["label"].split(",")
+    clock = "SIMULATED" if lab[0] == "SIM" else "WALL_CLOCK"
+    sched = "FREQUENCY" if lab[1] == "FREQ" else "PHASE"
+    adv = lab[2] == "adv=1"
+    fan = lab[3].split("=")[1]
+    blocking = tuple(ch == "B" for ch in fan if ch in "BN")
+    p = spec["probes"]
+    base = dict(ts_sched=num(p.get("ts_sched"), 1.0), ts_end_prev=num(p.get("ts_end_prev"), 0.9), ts_max=num(p.get("ts_max"), 0.0), ps=max(0.0, num(p.get("phase_scheduled"), 0.0)), delay=max(0.0, num(p.get("delay"), 0.01)))
+    cands = [base, dict(base, ts_end_prev=base["ts_sched"] + 0.07, ps=0.05), dict(base, ts_end_prev=base["ts_sched"] + 0.02, ps=0.05), dict(base, ts_max=base["ts_sched"] + 0.3), dict(base, ps=0.2, ts_end_prev=base["ts_sched"] - 0.5)]
+    bad = False
+    for c in cands:
+        w = stub_node(sched, adv, clock, lab[4] if len(lab) > 4 else "RUNNING", blocking=blocking)
+        w.push_step = lambda: w.calls.append("push_step")
+        w.q_ts_scheduled.append((3, c["ts_sched"])); w.q_ts_end_prev.append(c["ts_end_prev"]); w._phase_scheduled = c["ps"]; w.q_sample.append(c["delay"])
+        nb = 0
+        for i in w.inputs.values():
+            if i.connection.blocking:
+                i.q_ts_max.append(c["ts_max"]); nb += 1
+        w.push_phase_shift()
+        if not w.q_ts_start:
+            continue
+        tick, ts_start, delay, rec = w.q_ts_start[-1]
+        tmax = c["ts_max"] if nb else 0.0
+        only_blocking = adv and all(i.connection.blocking for i in w.inputs.values())
+        want = max(c["ts_end_prev"], tmax) if only_blocking else max(c["ts_sched"] + c["ps"], c["ts_end_prev"], tmax)
+        want_ps = max(c["ps"], c["ts_end_prev"] - c["ts_sched"]) if sched == "FREQUENCY" else 0.0
+        ok = abs(ts_start - want) < 1e-9 and abs(w._phase_scheduled - want_ps) < 1e-9
+        if clock == "SIMULATED":
+            ok = ok and abs(w.q_ts_end_prev[-1] - (ts_start + c["delay"])) < 1e-9
+        print(f"real push_phase_shift: scheduled={c['ts_sched']} drift={c['ps']} end_prev={c['ts_end_prev']} ts_max={tmax} -> ts_start={ts_start} (law: {want}), drift'={w._phase_scheduled} (law: {want_ps}) {'ok' if ok else 'VIOLATED'}")
+        bad |= not ok
+    return bad
+
+
+def r_pure(spec, data):
+    """pure functions: concrete inputs derived from the model, oracle written independently"""
+    import numpy as np
+    which = spec["which"]
+    p = spec.get("probes", {})
+    if which == "replace_eps":
+        import jax.numpy as jnp
+        from rex.base import GraphState, Timings, SlotVertex
+        bad = False
+        for E in (1, 3):
+            run = jnp.zeros((E, 4), dtype=bool)
+            t = Timings(slots={"s": SlotVertex(seq=jnp.zeros((E, 4), dtype=int), ts_start=jnp.zeros((E, 4)), ts_end=jnp.zeros((E, 4)), windows={}, run=run, kind="n", generation=0)})
+            for v in (-2, 0, E - 1, E, E + 5):
+                gs = GraphState().replace_eps(t, v)
+                want = min(max(v, 0), E - 1)
+                ok = int(gs.eps) == want and gs.timings_eps.slots["s"].run.shape == (4,)
+                print(f"replace_eps(max_eps={E}, eps={v}) -> {int(gs.eps)} (clip: {want}) {'ok' if ok else 'VIOLATED'}")
+                bad |= not ok
+            for v in (-1, 0, 3, 4, 9):
+                gs = GraphState().replace_step(t, v)
+                bad |= int(gs.step) != min(max(v, 0), 3)
+        return bad
+    if which == "denormalize":
+        import jax.numpy as jnp
+        from rex.base import Denormalize
+        bad = False
+        for lo, hi in ((1.0, 3.0), (1e-7, 5e-7), (-2.0, 2.0), (0.0, 1e-9)):
+            T = Denormalize.init({"a": jnp.array(lo), "b": None}, {"a": jnp.array(hi), "b": None})
+            for x in (-1.0, -0.5, 0.0, 0.3, 1.0):
+                y = T.apply({"a": jnp.array(x), "b": None})
+                back = float(T.inv(y)["a"])
+                ok = abs(back - x) < 1e-4 and (x != -1.0 or abs(float(y["a"]) - lo) <= 1e-6 * max(1, abs(lo))) and (x != 1.0 or abs(float(y["a"]) - hi) <= 1e-6 * max(1, abs(hi)))
+                if not ok:
+                    print(f"Denormalize[{lo},{hi}]: inv(apply({x})) = {back}, apply = {float(y['a'])} VIOLATED")
+                bad |= not ok
+        return bad
+    if which == "cem_update":
+        import jax.numpy as jnp
+        from rex.cem import CEMSolver, CEMState, cem_update_mean_stdev
+        bad = False
+        cases = [([3.0, float("nan"), 1.0, 2.0], float("inf")), ([float("nan"), 5.0, float("nan"), 4.0], float("inf")), ([2.0, 3.0, 4.0, 5.0], 1.0), ([float("nan")] * 4, 7.0), ([float("nan"), 0.5, 0.7, 0.9], 0.6)]
+        for losses, old in cases:
+            solver = CEMSolver(u_min={"p": jnp.array(-9.0)}, u_max={"p": jnp.array(9.0)}, evolution_smoothing=0.1, num_samples=4, elite_portion=0.5)
+            state = CEMState(mean={"p": jnp.array(0.0)}, stdev={"p": jnp.array(1.0)}, bestsofar={"p": jnp.array(-5.0)}, bestsofar_loss=jnp.array(old))
+            samples = {"p": jnp.array([10.0, 11.0, 12.0, 13.0])}
+            new = cem_update_mean_stdev(solver, state, samples, jnp.array(losses))
+            fin = [(l, s) for l, s in zip(losses, [10.0, 11.0, 12.0, 13.0]) if l == l]
+            best = min(fin)[0] if fin else float("inf")
+            want = min(old, best)
+            got = float(new.bestsofar_loss)
+            wantp = -5.0 if not (best < old) else min(fin)[1]
+            ok = (got == want) and (abs(float(new.bestsofar["p"]) - wantp) < 1e-6 or not fin)
+            print(f"cem_update losses={losses} old={old}: bestsofar_loss={got} (want {want}) best={float(new.bestsofar['p'])} (want {wantp}) {'ok' if ok else 'VIOLATED'}")
+            bad |= not ok
+        return bad
+    if which == "trainable_dist":
+        from rex.base import TrainableDist
+        bad = False
+        for (d, lo, hi) in ((0.03, 0.02, 0.04), (0.0, 0.0, 0.1), (0.1, 0.0, 0.1), (0.05, 0.01, 0.2)):
+            D = TrainableDist.create(delay=d, min=lo, max=hi)
+            s = float(D.sample()[1]); q = float(D.quantile(0.99)); m = float(D.mean())
+            ok = abs(s - d) < 1e-6 and abs(q - d) < 1e-6 and abs(m - d) < 1e-6
+            print(f"TrainableDist(delay={d}, [{lo},{hi}]): sample={s} quantile={q} mean={m} {'ok' if ok else 'VIOLATED'}")
+            bad |= not ok
+            for dd in (lo - 1.0, hi + 1.0):
+                a = float(D.get_alpha(dd)); eff = lo + a * (hi - lo)
+                bad |= abs(eff - min(max(dd, lo), hi)) > 1e-6
+        return bad
+    if which == "reward_norm":
+        import jax.numpy as jnp
+        from rex.rl import NormalizeVecReward, NormalizeVec
+        from rex.base import GraphState
+
+        class Inner:
+            def __init__(self, term, trunc):
+                self.term, self.trunc = term, trunc
+
+            def step(self, gs, a):
+                return gs, jnp.zeros((2, 1)), jnp.array([1.0, 2.0]), jnp.array(self.term), jnp.array(self.trunc), {}
+        bad = False
+        for term, trunc in (([False, False], [False, False]), ([True, False], [False, False]), ([False, False], [True, False]), ([True, True], [True, False])):
+            w = NormalizeVecReward(Inner(term, trunc), gamma=0.9)
+            ns = NormalizeVec(mean=0.0, var=1.0, count=1e-4, return_val=jnp.array([10.0, 20.0]), clip=10.0)
+            gs = GraphState().replace_aux({"norm_reward": ns})
+            out = w.step(gs, None)
+            rv = out[0].aux["norm_reward"].return_val
+            want = [10.0 * 0.9 * (0.0 if (term[0] or trunc[0]) else 1.0) + 1.0, 20.0 * 0.9 * (0.0 if (term[1] or trunc[1]) else 1.0) + 2.0]
+            ok = abs(float(rv[0]) - want[0]) < 1e-5 and abs(float(rv[1]) - want[1]) < 1e-5
+            print(f"NormalizeVecReward terminated={term} truncated={trunc}: return_val={[float(x) for x in rv]} (want {want}) {'ok' if ok else 'VIOLATED'}")
+            bad |= not ok
+        return bad
+    print("no oracle for", which)
+    return False
+
+
+RECIPES = {"push_phase_shift": r_push_phase_shift, "pure": r_pure, "policy_vs_actor": r_policy_vs_actor, "push_ts_input": r_push_ts_input, "set_delay": r_set_delay, "push_expected_nonblocking": r_push_expected_nonblocking}
 
 
 def main():
